@@ -289,6 +289,7 @@ partial def loop (h : IO.FS.Stream) (out : IO.FS.Stream) (st : St) : IO Unit := 
     loop h out st
   | ["sweep", "country"] =>
     for l in Spec.countrySweep do out.putStrLn l
+    for l in Spec.annexSweep do out.putStrLn l
     loop h out st
   | [] => loop h out st
   | _ => out.putStrLn ("bad-op " ++ line.trimAscii.toString); loop h out st
